@@ -33,6 +33,8 @@ type SQLWrap struct {
 	Log     []StmtLog
 	Record  bool
 	FailAt  map[int]bool // fail statement n once with an injected error
+	FailRowsAt map[int]bool // query n succeeds, its first row fetch fails once (SQLITE_BUSY surfaces at the first step)
+	rowsFault  bool
 	KillAt  int          // SIGKILL self right before statement n (0 = off)
 	KillFile string      // written (statement description) just before the kill
 	KillCommit int       // SIGKILL self right before the k-th COMMIT (0 = off)
@@ -40,13 +42,15 @@ type SQLWrap struct {
 	commits  int
 }
 
-var Wrap = &SQLWrap{FailAt: map[int]bool{}}
+var Wrap = &SQLWrap{FailAt: map[int]bool{}, FailRowsAt: map[int]bool{}}
 
 func (w *SQLWrap) Reset() {
 	w.mu.Lock()
 	w.n = 0
 	w.Log = nil
 	w.FailAt = map[int]bool{}
+	w.FailRowsAt = map[int]bool{}
+	w.rowsFault = false
 	w.KillAt = 0
 	w.mu.Unlock()
 }
@@ -122,6 +126,10 @@ func (w *SQLWrap) before(kind, q string) error {
 	fail := w.FailAt[n]
 	if fail {
 		delete(w.FailAt, n)
+	}
+	if kind == "query" && w.FailRowsAt[n] {
+		delete(w.FailRowsAt, n)
+		w.rowsFault = true
 	}
 	kf := w.KillFile
 	delay := w.CommitDelay
@@ -221,7 +229,8 @@ func (s *wStmt) Query(args []driver.Value) (driver.Rows, error) {
 	if err := Wrap.before("query", s.q); err != nil {
 		return nil, err
 	}
-	return s.s.Query(args)
+	rows, err := s.s.Query(args)
+	return Wrap.wrapRows(rows, err)
 }
 func (s *wStmt) ExecContext(ctx context.Context, args []driver.NamedValue) (driver.Result, error) {
 	if err := Wrap.before("exec", s.q); err != nil {
@@ -233,7 +242,39 @@ func (s *wStmt) QueryContext(ctx context.Context, args []driver.NamedValue) (dri
 	if err := Wrap.before("query", s.q); err != nil {
 		return nil, err
 	}
-	return s.s.QueryContext(ctx, args)
+	rows, err := s.s.QueryContext(ctx, args)
+	return Wrap.wrapRows(rows, err)
+}
+
+// wrapRows: when a row-fetch fault is pending for this query, the result set fails at its first
+// fetch — where go-sqlite3 reports a lock timeout or an I/O error of the first sqlite3_step.
+func (w *SQLWrap) wrapRows(rows driver.Rows, err error) (driver.Rows, error) {
+	if err != nil {
+		return rows, err
+	}
+	w.mu.Lock()
+	f := w.rowsFault
+	w.rowsFault = false
+	w.mu.Unlock()
+	if !f {
+		return rows, nil
+	}
+	return &wRows{inner: rows}, nil
+}
+
+type wRows struct {
+	inner  driver.Rows
+	failed bool
+}
+
+func (r *wRows) Columns() []string { return r.inner.Columns() }
+func (r *wRows) Close() error      { return r.inner.Close() }
+func (r *wRows) Next(dest []driver.Value) error {
+	if !r.failed {
+		r.failed = true
+		return fmt.Errorf("injected database fault while fetching rows (database is locked)")
+	}
+	return r.inner.Next(dest)
 }
 
 func init() {
